@@ -639,11 +639,68 @@ def gen_dense_large(rng, n):
     b = [Fr(rng.rint(-63, 63), 64) for _ in range(n)]
     return {"kind": "sparse", "n": n, "T": {k: v for k, v in T.items() if v != 0}, "b": b, "dense": True, "ridge": ridge}
 
+def gen_monofit_system(rng, n):
+    """the T-basis normal system of a LONG one-dimensional monotone fit, built exactly as glam.c builds it: quadratic (or linear) B-splines
+    on integer knots, data only over part of the knot range (several basis functions have no data under them and are held by the
+    penalty alone), second-difference penalty, both transformed to the cumulative basis c = L z:  A = L'(B'WB + lambda D'D)L,
+    b = L'B'Wy.  This is the regime in which nnls_normal_block3 re-admits several coefficients at a time while its factor is
+    being modified row by row. All entries are dyadic rationals (exact in double). lambda_min(A) >= 1/||A^-1||_inf, certified exactly."""
+    from C09 import solve_certified, exact_bspline
+    order = rng.choice([2, 2, 1])
+    kn = [Fr(i) for i in range(n + order + 1)]
+    lo = rng.choice([order + 2, order + 6, (n + order) // 5])
+    hi = n - rng.choice([1, 4, (n + order) // 6])
+    npts = rng.choice([2 * n, 3 * n])
+    xs = sorted(set(Fr(lo) + Fr(int((hi - lo) * 64 * (j + rng.unit()) / npts), 64) for j in range(npts)))
+    kind = rng.choice(["convex", "convex", "line", "bump"])
+    M = [[Fr(0)] * n for _ in range(n)]
+    rv = [Fr(0)] * n
+    for x in xs:
+        u = (x - lo) / (hi - lo)
+        y = {"convex": Fr(35, 64) + u * u, "line": Fr(1, 4) + u, "bump": Fr(1, 2) + u - u * u * Fr(3, 4)}[kind] + Fr(rng.rint(-8, 8), 1024)
+        y = Fr(int(y * 4096), 4096) * rng.choice([1, 1, 1000])
+        i0 = max(0, int(x) - order)
+        nz = [(i, exact_bspline(kn, x, i, order)) for i in range(i0, min(n, int(x) + 1))]
+        for i, bi in nz:
+            if bi:
+                rv[i] += bi * y
+                for j, bj in nz:
+                    M[i][j] += bi * bj
+    lam = Fr(1, 2 ** rng.choice([0, 3, 6, 10]))
+    por = 2 if order == 2 else 1
+    st = [1, -2, 1] if por == 2 else [-1, 1]
+    for r0 in range(n - por):
+        for a, sa in enumerate(st):
+            for b2, sb in enumerate(st):
+                M[r0 + a][r0 + b2] += lam * sa * sb
+    # A = L' M L with L = lower-triangular ones:  (L'ML)_{pq} = sum_{i>=p} sum_{j>=q} M_ij  (suffix sums both ways); b = suffix sums of rv
+    S = [row[:] for row in M]
+    for i in range(n):
+        for j in range(n - 2, -1, -1):
+            S[i][j] += S[i][j + 1]
+    for j in range(n):
+        for i in range(n - 2, -1, -1):
+            S[i][j] += S[i + 1][j]
+    bb = rv[:]
+    for i in range(n - 2, -1, -1):
+        bb[i] += bb[i + 1]
+    z, eps, ninv, why = solve_certified(S, bb)
+    if z is None:
+        return None
+    T = {(i, j): S[i][j] for i in range(n) for j in range(n) if S[i][j] != 0}
+    return {"kind": "sparse", "n": n, "T": T, "b": bb, "dense": True, "ridge": 1 / ninv, "monofit": kind}
+
 def check_sparse(rng, exe, out, stats, count, nmax):
     cases = [gen_sparse(rng.fork("sp%d" % i), rng.rint(40, nmax)) for i in range(count)]
     ndl = max(16, count)
     cases += [gen_dense_large(rng.fork("dl%d" % i), rng.choice([150, 200, 200, 260])) for i in range(ndl)]
     stats["large_dense_systems"] = stats.get("large_dense_systems", 0) + ndl
+    nmf = 0
+    for i in range(max(16, count)):
+        c = gen_monofit_system(rng.fork("mf%d" % i), rng.choice([61, 70, 70, 83, 96, 110]))
+        if c is not None:
+            cases.append(c); nmf += 1
+    stats["monotone_fit_systems"] = stats.get("monotone_fit_systems", 0) + nmf
     blocks = []
     for k, c in enumerate(cases):
         for s in ("block3", "block", "updown", "lh_ne"):
